@@ -39,7 +39,7 @@ theorem positionStep_action (t t' : Table) (c : String) (id : Nat) (hs : t.posit
         have := pure_ok hs; subst this
         exact swapOrder_action t t1 _ _ _ h1
 
-theorem addColumn_action (t t' : Table) (col : Column) (mysql : Bool) (hs : t.addColumn col mysql = .ok t') :
+theorem addColumn_action (t t' : Table) (col : Column) (mysql : Bool) {pg : Bool} (hs : t.addColumn col mysql pg = .ok t') :
     t'.action = t.action := by
   unfold addColumn at hs
   cases hg : t.colIdx.get? col.name with
